@@ -129,6 +129,13 @@ def handle (d : DS) : List String → DS × String
       let (h, t) := h.fresh
       ({ h := h.setT t { data := a, const := c }, vars := insert name t d.vars }, "ok")
     | _, _, _, _ => (d, "bad-op")
+  | ["leaf", name, sh, data, c, "RO"] =>
+    match name.toNat?, parseShape sh, intList? data, s2b? c with
+    | some name, some sh, some data, some c =>
+      let (h, a) := d.h.newArr (sh, data)
+      let (h, t) := h.fresh
+      ({ h := { h.setT t { data := a, const := c } with ro := a.buf :: h.ro }, vars := insert name t d.vars }, "ok")
+    | _, _, _, _ => (d, "bad-op")
   | ["kstrides", sh, st] =>
     match parseShape sh, intList? st with
     | some sh, some st => (d, showInts (korderStrides sh st))
